@@ -501,8 +501,13 @@ class SourceGenerator(NodeVisitor):
     # Expressions
 
     def visit_Attribute(self, node):
+        number = isinstance(getattr(node.value, "value", None), (int, float))
+        if number:
+            # 7.real is not valid; (7).real is
+            self.write("(")
         self.visit(node.value)
-        self.write("." + node.attr)
+        self.write(")." if number else ".")
+        self.write(node.attr)
 
     def visit_Call(self, node):
         want_comma = []
